@@ -345,3 +345,185 @@ Section Decode.
     pose proof (flat_enc_len (c_attrs c)). fold A in H. lia.
   Qed.
 End Decode.
+
+(* ---- multiprotocol sections and End-of-RIB ---- *)
+Lemma find_unchecked_map specs code a :
+  find (fun s => as_code s =? code) specs = Some a ->
+  find_unchecked (map (fun a => (wire_flags a, as_code a, enc_attr a)) specs) code = Some (wire_flags a, enc_attr a).
+Proof.
+  induction specs as [|s specs IH]; cbn [find map find_unchecked]; [discriminate|].
+  destruct (as_code s =? code); [intros H; inversion H; subst; reflexivity|apply IH].
+Qed.
+
+Lemma find_none_map specs code :
+  find (fun s => as_code s =? code) specs = None ->
+  find_unchecked (map (fun a => (wire_flags a, as_code a, enc_attr a)) specs) code = None.
+Proof.
+  induction specs as [|s specs IH]; cbn [find map find_unchecked]; [reflexivity|].
+  destruct (as_code s =? code); [discriminate|apply IH].
+Qed.
+
+Lemma mp_family_value fam rest : fst fam < 65536 -> snd fam < 256 ->
+  mp_family (be 2 (fst fam) ++ [snd fam] ++ rest) = Ok (fam, mkP rest 3).
+Proof.
+  intros H1 H2. unfold mp_family, parser_of, parse_u16. rewrite parse_be_app by (cbn; lia). cbn [bind app parse_u8 p_rest p_pos].
+  destruct fam. reflexivity.
+Qed.
+
+Section Mp.
+  Variables (cfg : sconfig) (c : content) (W Nl : bytes).
+  Hypothesis Hwf : wf_content cfg c = true.
+  Hypothesis HW : encode_all (c_wd c) = Ok W.
+  Hypothesis HN : encode_all (c_ann c) = Ok Nl.
+  Let A := flat_map enc_attr (c_attrs c).
+  Let total := (23 + length W + length A + length Nl)%nat.
+  Hypothesis Hsize : N.of_nat total <= 65535.
+  Let b := marker ++ be 2 (N.of_nat total) ++ [2] ++ be 2 (N.of_nat (length W)) ++ W ++ be 2 (N.of_nat (length A)) ++ A ++ Nl.
+  Let u := expected_upd cfg c W Nl.
+
+  Lemma a_unchecked_is : a_unchecked b u = map (fun a => (wire_flags a, as_code a, enc_attr a)) (c_attrs c).
+  Proof.
+    destruct (wf_parts cfg c Hwf) as (_ & _ & Hat). unfold a_unchecked, attr_bytes. subst u b A total.
+    rewrite (b_split_attr cfg c W Nl Hsize). apply unchecked_walk_frames; [assumption|].
+    pose proof (flat_enc_len (c_attrs c)). lia.
+  Qed.
+
+  (* announcements carried in an MP_REACH_NLRI attribute *)
+  Lemma c01_mp_reach_proof a fam k nh l enc :
+    find (fun s => as_code s =? 14) (c_attrs c) = Some a ->
+    fst fam < 65536 -> snd fam < 256 -> fam_of fam = Some k -> N.of_nat (length nh) < 256 ->
+    encode_all l = Ok enc ->
+    Forall (fun n => wf_nlri n = true /\ n_fam n = k /\
+                     (match n_pathid n with Some _ => true | None => false end) = pp_reach (u_ppi u)) l ->
+    as_value a = mp_reach_value fam nh enc ->
+    a_mp_announcements b u = Ok (Some (fam, Some (map Ok l))).
+  Proof.
+    intros Hfind Hf1 Hf2 Hk Hnh He Hall Hv.
+    assert (Ha : wf_spec a = true).
+    { destruct (wf_parts cfg c Hwf) as (_ & _ & Hat). rewrite forallb_forall in Hat. apply Hat.
+      apply find_some in Hfind. tauto. }
+    unfold a_mp_announcements, mp_iter. rewrite a_unchecked_is. rewrite (find_unchecked_map _ _ _ Hfind).
+    rewrite tlv_value_enc by assumption. cbn [bind]. rewrite Hv. unfold mp_reach_value.
+    rewrite mp_family_value by assumption. cbn [bind app parse_u8 p_rest p_pos].
+    unfold advance. rewrite Nat2N.id. rewrite take_app' by reflexivity. cbn [bind app].
+    unfold take. cbn [remaining p_rest length Nat.leb firstn skipn p_pos bind]. rewrite Hk.
+    do 3 f_equal. unfold remaining. cbn [p_rest].
+    apply (c05_concat_proof k (pp_reach (u_ppi u)) l enc); [exact Hall|exact He|].
+    (* each NLRI is at least one octet *)
+    clear -Hall He. revert enc He. induction Hall as [|n l (Hw & _ & _) Hall IH]; intros enc He; [cbn; lia|].
+    cbn [encode_all] in He. destruct (compose_nlri n) as [x| |] eqn:Hc; cbn [bind] in He; try discriminate.
+    destruct (encode_all l) as [r| |] eqn:Hr; cbn [bind] in He; try discriminate. inversion He; subst.
+    pose proof (compose_nonempty n x Hw Hc). specialize (IH r eq_refl). rewrite app_length. cbn [length]. lia.
+  Qed.
+
+  Lemma c01_mp_unreach_proof a fam k l enc :
+    find (fun s => as_code s =? 15) (c_attrs c) = Some a ->
+    fst fam < 65536 -> snd fam < 256 -> fam_of fam = Some k ->
+    encode_all l = Ok enc ->
+    Forall (fun n => wf_nlri n = true /\ n_fam n = k /\
+                     (match n_pathid n with Some _ => true | None => false end) = pp_unreach (u_ppi u)) l ->
+    as_value a = mp_unreach_value fam enc ->
+    a_mp_withdrawals b u = Ok (Some (fam, Some (map Ok l))).
+  Proof.
+    intros Hfind Hf1 Hf2 Hk He Hall Hv.
+    assert (Ha : wf_spec a = true).
+    { destruct (wf_parts cfg c Hwf) as (_ & _ & Hat). rewrite forallb_forall in Hat. apply Hat.
+      apply find_some in Hfind. tauto. }
+    unfold a_mp_withdrawals, mp_iter. rewrite a_unchecked_is. rewrite (find_unchecked_map _ _ _ Hfind).
+    rewrite tlv_value_enc by assumption. cbn [bind]. rewrite Hv. unfold mp_unreach_value.
+    rewrite mp_family_value by assumption. cbn [bind]. rewrite Hk.
+    do 3 f_equal. unfold remaining. cbn [p_rest].
+    apply (c05_concat_proof k (pp_unreach (u_ppi u)) l enc); [exact Hall|exact He|].
+    clear -Hall He. revert enc He. induction Hall as [|n l (Hw & _ & _) Hall IH]; intros enc He; [cbn; lia|].
+    cbn [encode_all] in He. destruct (compose_nlri n) as [x| |] eqn:Hc; cbn [bind] in He; try discriminate.
+    destruct (encode_all l) as [r| |] eqn:Hr; cbn [bind] in He; try discriminate. inversion He; subst.
+    pose proof (compose_nonempty n x Hw Hc). specialize (IH r eq_refl). rewrite app_length. cbn [length]. lia.
+  Qed.
+
+  Lemma c01_no_mp_proof code : find (fun s => as_code s =? code) (c_attrs c) = None ->
+    forall ap skip, mp_iter b u code ap skip = Ok None.
+  Proof. intros H ap skip. unfold mp_iter. rewrite a_unchecked_is. now rewrite find_none_map. Qed.
+
+  (* End-of-RIB: exactly the empty UPDATE (IPv4 unicast) and the UPDATE whose only attribute is an
+     empty MP_UNREACH_NLRI (that family); anything carrying NLRI is not End-of-RIB *)
+  Lemma a_length_is : a_length u = total.
+  Proof. unfold a_length, range_len. subst u. unfold expected_upd. cbn [u_wd u_attr u_ann fst snd]. subst total A. lia. Qed.
+
+  Lemma c01_eor_conventional_proof : c_wd c = [] -> c_attrs c = [] -> c_ann c = [] -> a_is_eor b u = Some (1, 1).
+  Proof.
+    intros H1 H2 H3. unfold a_is_eor. rewrite a_length_is. subst total A. rewrite H1 in HW. rewrite H3 in HN.
+    cbn in HW, HN. inversion HW; inversion HN; subst. rewrite H2. reflexivity.
+  Qed.
+
+  Lemma ranges_are : range_len (u_wd u) = length W /\ range_len (u_ann u) = length Nl.
+  Proof. subst u. unfold expected_upd, range_len. cbn [u_wd u_ann fst snd]. subst total A. split; lia. Qed.
+
+  Lemma c01_eor_mp_proof a fam k :
+    c_wd c = [] -> c_ann c = [] -> c_attrs c = [a] -> as_code a = 15 ->
+    fst fam < 65536 -> snd fam < 256 -> fam_of fam = Some k -> as_value a = mp_unreach_value fam [] ->
+    a_is_eor b u = Some fam.
+  Proof.
+    intros H1 H3 H2 Hc Hf1 Hf2 Hk Hv. unfold a_is_eor. rewrite a_length_is.
+    assert (EW : length W = 0%nat) by (rewrite H1 in HW; cbn in HW; inversion HW; reflexivity).
+    assert (EN : length Nl = 0%nat) by (rewrite H3 in HN; cbn in HN; inversion HN; reflexivity).
+    pose proof (enc_attr_len a) as La.
+    assert (Et : Nat.eqb total 23 = false).
+    { apply Nat.eqb_neq. subst total A. rewrite H2. cbn [flat_map]. rewrite app_nil_r, EW, EN. lia. }
+    rewrite Et. destruct ranges_are as [R1 R2]. rewrite R1, R2, EW, EN. cbn [Nat.eqb andb].
+    rewrite a_unchecked_is, H2. cbn [map]. rewrite Hc. cbn [N.eqb Pos.eqb].
+    assert (Hfind : find (fun s => as_code s =? 15) (c_attrs c) = Some a) by (rewrite H2; cbn [find]; rewrite Hc; reflexivity).
+    rewrite (c01_mp_unreach_proof a fam k [] [] Hfind Hf1 Hf2 Hk eq_refl (Forall_nil _) Hv). reflexivity.
+  Qed.
+
+  Lemma c01_not_eor_with_conventional_nlri_proof :
+    (c_wd c <> [] \/ c_ann c <> []) -> a_is_eor b u = None.
+  Proof.
+    intros Hne. destruct (wf_parts cfg c Hwf) as (Hwd & Hann & _). unfold a_is_eor. rewrite a_length_is.
+    pose proof (encode_all_len _ _ _ Hwd HW) as L1. pose proof (encode_all_len _ _ _ Hann HN) as L2.
+    assert (Hpos : (0 < length W \/ 0 < length Nl)%nat).
+    { destruct Hne as [H|H]; [left; destruct (c_wd c); [contradiction|cbn [length] in L1; lia]
+                             |right; destruct (c_ann c); [contradiction|cbn [length] in L2; lia]]. }
+    replace (Nat.eqb total 23) with false by (symmetry; apply Nat.eqb_neq; subst total; lia).
+    destruct ranges_are as [R1 R2]. rewrite R1, R2.
+    destruct Hpos as [H|H].
+    - replace (Nat.eqb (length W) 0) with false by (symmetry; apply Nat.eqb_neq; lia). reflexivity.
+    - replace (Nat.eqb (length Nl) 0) with false by (symmetry; apply Nat.eqb_neq; lia).
+      now rewrite andb_false_r.
+  Qed.
+End Mp.
+
+Lemma tbl_lookup_some_in l c r : tbl_lookup l c = Some r -> In (c, r) l.
+Proof.
+  induction l as [|[c' r'] l IH]; cbn [tbl_lookup]; [discriminate|].
+  destruct (N.eqb_spec c' c); [intros H; inversion H; subst; now left|intros H; right; auto].
+Qed.
+
+Lemma rule_small c cf vr lr : attr_rule c = Some (cf, vr, lr) -> c < 256 /\ cf < 256 /\ c <> 14 /\ c <> 15.
+Proof.
+  intros H. apply tbl_lookup_some_in in H.
+  assert (G : forallb (fun e => (fst e <? 256) && (fst (fst (snd e)) <? 256) && negb (fst e =? 14) && negb (fst e =? 15)) attr_table = true)
+    by (vm_compute; reflexivity).
+  rewrite forallb_forall in G. specialize (G _ H). cbn [fst snd] in G.
+  rewrite !andb_true_iff, !negb_true_iff, !N.ltb_lt, !N.eqb_neq in G. tauto.
+Qed.
+
+(* a typed attribute value placed in the message comes back as that value (4-octet session) *)
+Lemma c01_typed_value_proof x v :
+  wf_attr x = true -> value_bytes x = Ok v ->
+  let a := mkAS (canon_flags (attr_code x)) (attr_code x) v in
+  wf_spec a = true /\ enc_attr a = header (canon_flags (attr_code x)) (attr_code x) (length v) ++ v /\
+  to_owned (expected_wattr true a) = Ok x.
+Proof.
+  intros Hwf Hv a. destruct (value_facts x Hwf) as (v' & cf & vr & lr & Hv' & Hr & Hl & Hval & Hp & Hsz & Hcf).
+  rewrite Hv in Hv'. inversion Hv'; subst v'. destruct (rule_small _ _ _ _ Hr) as (C & F & N14 & N15).
+  split; [|split; [reflexivity|]].
+  - unfold wf_spec, a. cbn [as_flags as_code as_value]. unfold canon_flags. rewrite Hr.
+    rewrite !andb_true_iff. repeat split.
+    + now apply N.ltb_lt.
+    + now apply N.ltb_lt.
+    + now apply N.leb_le.
+    + rewrite Hcf. cbn. apply orb_true_r.
+    + apply orb_true_iff. left. apply negb_true_iff. apply orb_false_iff. split; now apply N.eqb_neq.
+  - unfold expected_wattr, a. cbn [as_flags as_code as_value]. rewrite Hr, Hval.
+    unfold enc_attr. cbn [as_flags as_code as_value]. rewrite to_owned_typed; [exact Hp|]. intros _. unfold canon_flags. now rewrite Hr.
+Qed.
